@@ -22,6 +22,9 @@ type AccessorGetter interface {
 	HasByHeight(ctx context.Context, height uint64) (bool, error)
 }
 
+// errReadOnly is returned by the mutating methods of Blockstore.
+var errReadOnly = errors.New("bitswap: Blockstore over EDS store is read-only")
+
 // Blockstore implements generalized Bitswap compatible storage over Shwap containers
 // that operates with Block and accesses data through AccessorGetter.
 type Blockstore struct {
@@ -84,16 +87,21 @@ func (b *Blockstore) Has(ctx context.Context, cid cid.Cid) (bool, error) {
 	return has, nil
 }
 
+// Put is not supported: Blockstore is a read-only view over the EDS store.
+// It reports an error instead of panicking, as getters are wired to store fetched Blocks
+// into whichever blockstore the node has.
 func (b *Blockstore) Put(context.Context, blocks.Block) error {
-	panic("not implemented")
+	return errReadOnly
 }
 
+// PutMany is not supported, see Put.
 func (b *Blockstore) PutMany(context.Context, []blocks.Block) error {
-	panic("not implemented")
+	return errReadOnly
 }
 
+// DeleteBlock is not supported, see Put.
 func (b *Blockstore) DeleteBlock(context.Context, cid.Cid) error {
-	panic("not implemented")
+	return errReadOnly
 }
 
 func (b *Blockstore) AllKeysChan(context.Context) (<-chan cid.Cid, error) { panic("not implemented") }
